@@ -32,6 +32,12 @@ def main():
         extra = ('\nThis is round %s: other people have already tried the most obvious change for this property. Prefer a different code site or '
                  'mechanism than the first one that comes to mind — look through ALL the anchors and the code around them before choosing.\n' % rnd)
         ms = d['anchors'].get('mechanism', [])
+        if rnd.isdigit() and int(rnd) >= 8:
+            extra += ('Earlier rounds already covered: wrong table entries, off-by-one at size limits, dropped special cases in a single call. '
+                      'Prefer a change whose effect needs a HISTORY (state kept between two calls in one process: caches, shared default '
+                      'arguments, class attributes, in-place edits of arguments), an unusual but legal ARGUMENT FORM (types, empty values, '
+                      'relative vs absolute names, options combined), or an ENVIRONMENT difference (working directory, environment variables, '
+                      'existing files).\n')
         if ms and rnd.isdigit() and int(rnd) >= 4:
             k = (int(rnd) - 3) % len(ms)
             extra += ('Target specifically this mechanism of the property (one of its code anchors): "%s" at %s. Your change must be in or directly '
